@@ -176,7 +176,7 @@ func c08Typestate(c *Ctx) {
 func c08SoleWriter(c *Ctx) {
 	readOnly := map[string]bool{"io/ioutil.ReadFile": true, "os.ReadFile": true, "os.Stat": true, "os.Lstat": true, "os.Remove": true, "os.Open": true}
 	n := 0
-	for _, fn := range c.Funcs {
+	for _, fn := range c.subjects() {
 		for _, nc := range calls(fn, named("(desync.LocalStore).nameFromID", "(*desync.LocalStore).nameFromID")) {
 			nameCall := nc.(*ssa.Call)
 			instrs(fn, func(_ *ssa.BasicBlock, _ int, ins ssa.Instruction) {
@@ -318,7 +318,7 @@ func c08InPlaceByFlagOnly(c *Ctx) {
 			"writeInplace (assembly directly into the destination) is reachable without opt.inPlace being set: an interrupted extract leaves a partial file under the destination name")
 	}
 	stores := 0
-	for _, f := range c.Funcs {
+	for _, f := range c.subjects() {
 		instrs(f, func(_ *ssa.BasicBlock, _ int, ins ssa.Instruction) {
 			st, ok := ins.(*ssa.Store)
 			if !ok {
